@@ -80,3 +80,31 @@ package fingerproxy
 //@   ghostset cfgH2PriorityLimit = h2fp.MaxPriorityFrames
 //@   ensures [C03:priority-frame-limit-is-the-configured-number] cfgH2PriorityLimit == ite(flagMaxHTTP2PriorityFrames == nil, 18446744073709551615, deref(flagMaxHTTP2PriorityFrames))
 //@   ensures [C05:three-fingerprint-headers-configured] len(hs) == 3
+
+//@ -- configuration wiring: every setting reads the environment variable its help text names, with the documented default
+//@ func flag.String :: name, value, usage -> p
+//@   trusted
+//@   assigns nothing
+//@   ensures p != nil && fresh(p) && deref(p) == value
+//@ func flag.Bool :: name, value, usage -> p
+//@   trusted
+//@   assigns nothing
+//@   ensures p != nil && fresh(p) && deref(p) == value
+//@ func flag.Uint :: name, value, usage -> p
+//@   trusted
+//@   assigns nothing
+//@   ensures p != nil && fresh(p) && deref(p) == value
+//@ func envWithDefault :: key, defaultVal -> r
+//@   props C15,C11
+//@   assigns nothing
+//@   ensures r == ite(envSet(key), envVal(key), defaultVal)
+//@ func envWithDefaultUint
+//@   trusted
+//@   pure
+//@ pure func envBool(key string, def bool) bool = ite(envSet(key) && lowerOf(envVal(key)) == "true", true, ite(envSet(key) && lowerOf(envVal(key)) == "false", false, def))
+//@ func initFlags
+//@   props C15,C09,C11
+//@   assigns flagListenAddr, flagForwardURL, flagCertFilename, flagKeyFilename, flagMetricsListenAddr, flagDurationMetricBuckets, flagPreserveHost, flagMaxHTTP2PriorityFrames, flagEnableKubernetesProbe, flagReverseProxyFlushInterval, flagTimeoutHTTPIdle, flagTimeoutHTTPRead, flagTimeoutHTTPWrite, flagTimeoutTLSHandshake, flagVerboseLogs, flagVersion
+//@   ensures [C15:probe-support-setting-read-from-its-documented-variable-default-on] flagEnableKubernetesProbe != nil && deref(flagEnableKubernetesProbe) == envBool("ENABLE_KUBERNETES_PROBE", true)
+//@   ensures [C09:preserve-host-setting-read-from-its-documented-variable-default-off] flagPreserveHost != nil && deref(flagPreserveHost) == envBool("PRESERVE_HOST", false)
+//@   ensures [C11:timeouts-read-from-their-documented-variables] flagTimeoutHTTPIdle != nil && deref(flagTimeoutHTTPIdle) == ite(envSet("TIMEOUT_HTTP_IDLE"), envVal("TIMEOUT_HTTP_IDLE"), "180s") && flagTimeoutHTTPRead != nil && deref(flagTimeoutHTTPRead) == ite(envSet("TIMEOUT_HTTP_READ"), envVal("TIMEOUT_HTTP_READ"), "60s") && flagTimeoutHTTPWrite != nil && deref(flagTimeoutHTTPWrite) == ite(envSet("TIMEOUT_HTTP_WRITE"), envVal("TIMEOUT_HTTP_WRITE"), "60s") && flagTimeoutTLSHandshake != nil && deref(flagTimeoutTLSHandshake) == ite(envSet("TIMEOUT_TLS_HANDSHAKE"), envVal("TIMEOUT_TLS_HANDSHAKE"), "10s")
